@@ -825,5 +825,132 @@ theorem addRepo_crash_safe (L : OrderLaws S.gt) {fs₀ : Fs} {cfg : List (Db C)}
         · left; rw [he, g1 _ (Ne.symm hRe)]
         · right; exact he
 
+/-! ### an installation never touches the repositories directory -/
+
+def primPaths : Prim → List Path
+  | .removeAll a => [a]
+  | .mkdirAll a => [a]
+  | .create a => [a]
+  | .append a _ => [a]
+  | .remove a => [a]
+  | .rename a b => [a, b]
+  | .renameIfExists a b => [a, b]
+
+/-- a step whose paths are neither above nor below `q` leaves `q` alone -/
+theorem get_apply_of_disjoint {p : Prim} {fs fs' : Fs} {q : Path}
+    (h : ∀ a ∈ primPaths p, isPre a q = false ∧ isPre q a = false) (hp : p.apply fs = .ok fs') : get fs' q = get fs q := by
+  cases p with
+  | removeAll a =>
+    simp only [Prim.apply, Except.ok.injEq] at hp; subst hp
+    rw [get_removeAll]; simp [(h a (by simp [primPaths])).1]
+  | mkdirAll a =>
+    simp only [Prim.apply] at hp
+    rcases get_mkdirAll hp q with h' | ⟨_, _, hpre, _⟩
+    · exact h'
+    · rw [(h a (by simp [primPaths])).2] at hpre; cases hpre
+  | create a =>
+    simp only [Prim.apply] at hp
+    rw [get_create hp]
+    have : ¬ (a = q) := by intro hh; subst hh; have := (h a (by simp [primPaths])).1; simp [isPre_refl] at this
+    simp [this]
+  | append a bs =>
+    simp only [Prim.apply] at hp
+    exact get_append hp q (by intro hh; subst hh; have := (h q (by simp [primPaths])).1; simp [isPre_refl] at this)
+  | remove a =>
+    simp only [Prim.apply] at hp
+    rw [get_remove hp]
+    have : ¬ (q = a) := by intro hh; subst hh; have := (h q (by simp [primPaths])).1; simp [isPre_refl] at this
+    simp [this]
+  | rename a b =>
+    simp only [Prim.apply] at hp
+    exact (get_rename hp q).1 (h a (by simp [primPaths])).1 (h b (by simp [primPaths])).1
+  | renameIfExists a b =>
+    simp only [Prim.apply, renameIfExists] at hp
+    split at hp
+    · cases hp; rfl
+    · exact (get_rename hp q).1 (h a (by simp [primPaths])).1 (h b (by simp [primPaths])).1
+
+theorem disjoint_of_head {a q : Path} {c d : FName} {s t : Path} (hcd : c ≠ d) (ha : a = c :: s) (hq : q = d :: t) :
+    isPre a q = false ∧ isPre q a = false := by
+  subst ha; subst hq
+  constructor
+  · cases h : isPre (c :: s) (d :: t) with
+    | false => rfl
+    | true => obtain ⟨u, hu⟩ := isPre_iff.1 h; simp at hu; exact absurd hu.1.symm hcd
+  · cases h : isPre (d :: t) (c :: s) with
+    | false => rfl
+    | true => obtain ⟨u, hu⟩ := isPre_iff.1 h; simp at hu; exact absurd hu.1 hcd
+
+theorem under_paths {root : Path} {p : Prim} (h : Under root p) : ∀ a ∈ primPaths p, isPre root a = true := by
+  cases p <;> simp_all [Under, primPaths]
+
+/-- every path an installation step names starts with `plugins` or is one of the two registry files -/
+theorem installPrims_heads {j : InstallJob} (hj : JobOk S j) : ∀ p ∈ installPrims j, ∀ a ∈ primPaths p,
+    ∃ c s, a = c :: s ∧ c ≠ lit "repositories" := by
+  have plug : ∀ a, isPre j.D a = true → ∃ c s, a = c :: s ∧ c ≠ lit "repositories" := by
+    intro a ha
+    obtain ⟨t, rfl⟩ := isPre_iff.1 ha
+    exact ⟨lit "plugins", j.ref.repo :: pluginDirName j.ref.name :: t, by simp [D_eq, pluginsDir], by decide⟩
+  have hSg : isPre j.D j.Sg = true := by rw [Sg_eq]; exact isPre_append _ _
+  have hO : isPre j.D j.O = true := by rw [O_eq]; exact isPre_append _ _
+  have hN : isPre j.D j.N = true := by rw [N_eq]; exact isPre_append _ _
+  have hHT : ∃ c s, handlersTmp = c :: s ∧ c ≠ lit "repositories" := ⟨_, _, rfl, by decide⟩
+  have hH : ∃ c s, handlersFile = c :: s ∧ c ≠ lit "repositories" := ⟨_, _, rfl, by decide⟩
+  intro p hp a ha
+  rw [installPrims_eq] at hp
+  simp only [primsA, primsB, handlerPrims, List.mem_append, List.mem_cons, List.not_mem_nil, or_false] at hp
+  rcases hp with (((rfl | rfl) | hp) | rfl) | rfl | rfl | rfl | hp
+  · simp only [primPaths, List.mem_singleton] at ha; subst ha; exact plug _ hSg
+  · simp only [primPaths, List.mem_singleton] at ha; subst ha; exact plug _ hSg
+  · exact plug _ (isPre_trans hSg (under_paths (hj.staging p hp) a ha))
+  · simp only [primPaths, List.mem_singleton] at ha; subst ha; exact plug _ hO
+  · simp only [primPaths, List.mem_cons, List.not_mem_nil, or_false] at ha
+    rcases ha with rfl | rfl
+    · exact plug _ hN
+    · exact plug _ hO
+  · simp only [primPaths, List.mem_cons, List.not_mem_nil, or_false] at ha
+    rcases ha with rfl | rfl
+    · exact plug _ hSg
+    · exact plug _ hN
+  · simp only [primPaths, List.mem_singleton] at ha; subst ha; exact plug _ hO
+  · cases hn : j.newHandlers with
+    | none => simp [hn] at hp
+    | some data =>
+      simp only [hn, saveHandlersPrims, List.mem_cons, List.not_mem_nil, or_false] at hp
+      rcases hp with rfl | rfl | rfl
+      · simp only [primPaths, List.mem_singleton] at ha; subst ha; exact hHT
+      · simp only [primPaths, List.mem_singleton] at ha; subst ha; exact hHT
+      · simp only [primPaths, List.mem_cons, List.not_mem_nil, or_false] at ha
+        rcases ha with rfl | rfl
+        · exact hHT
+        · exact hH
+
+theorem tear_paths {p q : Prim} {t : Nat} (h : q ∈ tearPrim t p) : primPaths q = primPaths p := by
+  cases p <;> simp [tearPrim] at h
+  subst h; rfl
+
+/-- a killed or completed installation leaves everything at or below the repositories directory as it was -/
+theorem install_keeps_repositories {j : InstallJob} (hj : JobOk S j) (fs₀ : Fs) (k t : Nat) (q : Path)
+    (hq : isPre repositoriesDir q = true) : get (crash k t (installPrims j) fs₀) q = get fs₀ q := by
+  obtain ⟨u, rfl⟩ := isPre_iff.1 hq
+  apply run_invariant (Inv := fun s => get s (repositoriesDir ++ u) = get fs₀ (repositoriesDir ++ u)) _ rfl
+  intro p hp s s' hs happ
+  rw [← hs]
+  apply get_apply_of_disjoint _ happ
+  intro a ha
+  -- where does `p` come from: a step of the list, or the torn version of one
+  have hheads : ∃ p' ∈ installPrims j, a ∈ primPaths p' := by
+    simp only [crashPrims, List.mem_append] at hp
+    rcases hp with hp | hp
+    · exact ⟨p, List.mem_of_mem_take hp, ha⟩
+    · cases hk : (installPrims j)[k]? with
+      | none => simp [hk] at hp
+      | some x =>
+        simp only [hk] at hp
+        exact ⟨x, List.mem_of_getElem? hk, by rw [← tear_paths hp]; exact ha⟩
+  obtain ⟨p', hp', ha'⟩ := hheads
+  obtain ⟨c, s'', hc, hne⟩ := installPrims_heads S hj p' hp' a ha'
+  exact disjoint_of_head (d := lit "repositories") (t := u) hne hc (by simp [repositoriesDir])
+
 end main
 end Octo.Plugins
